@@ -83,7 +83,7 @@ def _create_merge_candidates(merge_expr: exp.Merge) -> exp.Expression:
 
             if isinstance(then, exp.Update):
                 case_when_clauses.append(f"WHEN {_sql(predicate)} THEN {w_idx}")
-                values.update(_source_columns([c.expression for c in then.expressions], source_id))
+                values.update(_source_columns([c.expression for c in then.expressions], source_id, unqualified=False))
             elif isinstance(then, exp.Var) and then.name.upper() == "DELETE":
                 case_when_clauses.append(f"WHEN {_sql(predicate)} THEN {w_idx}")
             else:
@@ -112,13 +112,18 @@ def _create_merge_candidates(merge_expr: exp.Merge) -> exp.Expression:
     return _parse(sql)
 
 
-def _source_columns(expressions: list[exp.Expression], source_id: exp.Identifier) -> set[str]:
-    # the columns of the source that the expressions use, bare (SET v = s.v) or inside a larger expression (s.v * 2)
+def _source_columns(
+    expressions: list[exp.Expression], source_id: exp.Identifier, unqualified: bool = True
+) -> set[str]:
+    # the columns of the source that the expressions use, bare (SET v = s.v) or inside a larger expression (s.v * 2).
+    # A column without a table inside a larger expression is one of the source's in the VALUES of an insert, but may
+    # be one of the target's in the SET of an update (SET seen = seen + 1), where unqualified=False leaves it alone
     return {
         _sql(c)
         for e in expressions
         for c in e.find_all(exp.Column)
-        if not c.args.get("table") or (isinstance(c.args["table"], exp.Identifier) and checks.equal(c.args["table"], source_id))
+        if (not c.args.get("table") and (unqualified or c is e))
+        or (isinstance(c.args.get("table"), exp.Identifier) and checks.equal(c.args["table"], source_id))
     }
 
 
